@@ -71,6 +71,14 @@ def Excl_reshapeLongWindow (t : Dense) : Bool :=
 def Excl_reshapeStrides (t : Dense) : Bool :=
   !t.view && t.old.isNone && !isScalar t.ap.shape && t.ap.strides != Dense.defaultStrides t.ap.o.col t.ap.shape
 
+/-- F120 (C20, build `inplacetranspose` only): the pattern a physical transposition starts from (`old`) is itself a
+    permuted pattern — the copy `SafeT` made of a lazily transposed tensor. The default build moves the data with
+    iterators and is right; the in-place build follows index cycles computed for a standard layout and panics. -/
+def Excl_transposeFromPermuted (t : Dense) : Bool :=
+  match t.old with
+  | some o => !isVector t.ap.shape && !isScalar t.ap.shape && o.strides != Dense.defaultStrides o.o.col o.shape
+  | none => false
+
 /-- F31 (C07/C11): scalar-on-the-left comparison with same-type output on an iterator path: the
     generated code walks the (contiguous) result buffer with the *operand's* iterator offsets
     (`<Cmp>SameIter(typ, dataA, dataReuse, ait, bit)`): panic or wrong cells. -/
